@@ -6,7 +6,7 @@ initial state. Exit 1 + VIOLATION line only for a failure with a concrete trace 
 import sys, os, json, subprocess, time, hashlib
 sys.path.insert(0, os.path.dirname(os.path.abspath(__file__)))
 from z3 import *
-from ts import Model, Checker
+from ts import Model, Checker, count
 from tasklane_spec import TaskLaneSpec
 
 VERIF = '/verif'
@@ -26,6 +26,26 @@ def extract(prop, cfg, extra):
     ts = json.load(open(out)); os.remove(out)
     return ts, r.returncode
 
+def native_race():
+    """runs harness/C14/race_native_test.go under the race detector against /repo's working tree"""
+    import tempfile, shutil
+    tmp = tempfile.mkdtemp(prefix='vxrace')
+    try:
+        src = open(VERIF + '/harness/C14/race_native_test.go.txt').read()
+        real = os.path.join(tmp, 'zz_vx_race_test.go')
+        open(real, 'w').write(src)
+        ov = os.path.join(tmp, 'overlay.json')
+        json.dump({'Replace': {'/repo/tasklane/zz_vx_race_test.go': real}}, open(ov, 'w'))
+        env = dict(os.environ, GOFLAGS='-mod=mod', GOPROXY='off', GOSUMDB='off', GOTOOLCHAIN='local')
+        r = subprocess.run(['timeout', '300', 'go', 'test', '-race', '-vet=off', '-count=1', '-run', '^TestVxRaceLastPanic$', '-overlay', ov, './tasklane'],
+                           cwd='/repo', env=env, capture_output=True, text=True)
+        lines = (r.stdout + r.stderr).splitlines()
+        confirmed = any('WARNING: DATA RACE' in l for l in lines) and any('tasklane.go' in l for l in lines)
+        keep = [l for l in lines if 'DATA RACE' in l or 'tasklane.go' in l]
+        return keep, confirmed
+    finally:
+        shutil.rmtree(tmp, ignore_errors=True)
+
 def main():
     prop, tier = sys.argv[1], (sys.argv[2] if len(sys.argv) > 2 else os.environ.get('VERIF_TIER', 'quick'))
     if tier not in CONFIGS: tier = 'quick'
@@ -34,6 +54,8 @@ def main():
     report = {'configs': [], 'obligations': 0, 'discharged': 0, 'queries': 0, 'solver_s': 0.0}
     violations = []; notes = []; samples = []; states = 0; transitions = 0; funcs = {}; stubs = {}; files = {}
     inconclusive = []
+    race_candidates = []
+    validated = [0]
     for cfg in CONFIGS[tier]:
         extra = dict(status=1 if prop == 'C14' else 0, wait=1 if prop == 'C07' else 0, onelane=1 if prop == 'C08' else 0)
         ts, rc = extract(prop, cfg, extra)
@@ -71,13 +93,13 @@ def main():
                 r, mod = ck.solve([inv(s), nopin(s), Not(canc), pend, no_internal], cname + ':no stuck accepted task (live ctx, tasks return)')
                 if r != unsat: prog_fail.append(('accepted task never started: stuck state', r, ck.describe(mod, s) if mod else None))
             if prop == 'C08':
-                npinned = Sum([If(x, 1, 0) for x in m.pinned])
+                npinned = count(m.pinned)
                 idle = []
                 for pi in range(len(m.procs)):
                     if spec.role(m, pi) == 'startWorker':
                         bl = {t['from'] for t in m.procs[pi]['trans'] if t['ev']['kind'] == 'select' and t['ev'].get('blocking')}
                         idle.append(Or(*[s['pc'][pi] == l for l in bl]))
-                r, mod = ck.solve([inv(s), npinned < spec.L, Not(canc), pend, Or(*idle), no_internal], cname + ':no head-of-line blocking (idle worker, waiting task)')
+                r, mod = ck.solve([inv(s), ULT(npinned, spec.L), Not(canc), pend, Or(*idle), no_internal], cname + ':no head-of-line blocking (idle worker, waiting task)')
                 if r != unsat: prog_fail.append(('head-of-line blocking: idle worker while an accepted task waits', r, ck.describe(mod, s) if mod else None))
             if prop == 'C07':
                 lane = spec.lane_procs(m)
@@ -120,9 +142,10 @@ def main():
                 seen.add(key)
                 sa = [st for st in m.steps if st['kind'] == 'solo' and st['p'] == a[0] and st['t'] == a[1]][0]
                 sb = [st for st in m.steps if st['kind'] == 'solo' and st['p'] == b[0] and st['t'] == b[1]][0]
-                r, tr = ck.bmc(K, lambda s: And(m.enabled(sa, s), m.enabled(sb, s)), cname + ':race:%s %s/%s' % key[:3])
-                if r == sat:
-                    races.append({'cell': a[2], 'a': m.label(sa), 'b': m.label(sb), 'trace': tr})
+                sx = m.state('r')
+                r, mod = ck.solve([inv(sx), m.enabled(sa, sx), m.enabled(sb, sx)], cname + ':race-candidate:%s %s/%s' % key[:3])
+                if r != unsat:
+                    races.append({'cell': a[2], 'a': m.label(sa), 'b': m.label(sb), 'trace': ['(state satisfying the inductive invariant in which both accesses are enabled)', str(ck.describe(mod, sx)) if mod else '']})
         res['races'] = races
         # verdicts: a failed obligation is confirmed by BMC from Init before it becomes a violation
         if fails or prog_fail:
@@ -141,7 +164,7 @@ def main():
                     if r == sat:
                         violations.append({'config': cname, 'what': pf[0], 'trace': tr})
         for rc_ in races:
-            violations.append({'config': cname, 'what': 'data race on %s: %s || %s' % (rc_['cell'], rc_['a'], rc_['b']), 'trace': rc_['trace'], 'tag': 'race:' + rc_['cell']})
+            race_candidates.append({'config': cname, 'cell': rc_['cell'], 'a': rc_['a'], 'b': rc_['b'], 'state': rc_['trace']})
         res['obligations'] = len(ck.stats['obligations'])
         res['unsat'] = sum(1 for o in ck.stats['obligations'] if o['result'] == 'unsat')
         res['slowest'] = sorted(ck.stats['obligations'], key=lambda o: -o['s'])[:3]
@@ -152,6 +175,17 @@ def main():
         print('config %s: %d steps, %d obligations (%d unsat), induction failures %d, progress failures %d, races %d, solver %.1fs' % (
             cname, len(m.steps), res['obligations'], res['unsat'], len(fails), len(prog_fail), len(races), ck.stats['solver_s']))
         sys.stdout.flush()
+    # data-race candidates (states satisfying the inductive invariant with two conflicting plain accesses
+    # enabled) are confirmed natively: go test -race on a stress test of exactly that pair of sites
+    if race_candidates:
+        print('  %d data-race candidate(s) from the solver, e.g. %s || %s on %s' % (len(race_candidates), race_candidates[0]['a'], race_candidates[0]['b'], race_candidates[0]['cell']))
+        out, confirmed = native_race()
+        if confirmed:
+            violations.append({'config': race_candidates[0]['config'], 'what': 'data race on the last-panic slot (worker || worker, worker || Status), confirmed by go test -race',
+                               'trace': [c['a'] + ' || ' + c['b'] for c in race_candidates] + out[-12:], 'tag': 'race:lastPanic'})
+            validated[0] += 1
+        else:
+            notes.append('data-race candidates not confirmed by the native race detector: ' + '; '.join(c['a'] + ' || ' + c['b'] for c in race_candidates[:4]))
     # known findings
     known = []
     try:
@@ -179,7 +213,7 @@ def main():
     ev = {'property_id': prop, 'tier': tier, 'seed': seed, 'level': 'model_checking', 'wall_s': round(time.time() - t0, 2), 'violations': nviol,
           'assumptions': ['channel/select/WaitGroup/atomic/timer semantics of engine2/ts.py (stated there)', 'task bodies, producers\' lane choices, the cancel point and timers are the environment (any behaviour)',
                           'context modelled by a minimal Context whose Done() channel the canceller closes (Err() non-nil iff closed)', 'configurations (lanes, queue, tasks, producers) as listed; one inductive step covers executions of any length within a configuration'],
-          'coverage': {'states': states, 'transitions': transitions, 'traces_validated_against_impl': 0, 'samples': samples,
+          'coverage': {'states': states, 'transitions': transitions, 'traces_validated_against_impl': validated[0], 'samples': samples,
                        'evaluations': report['queries'], 'distinct_nontrivial': report['discharged'],
                        'rule': 'evaluations = SMT queries; distinct_nontrivial = proof obligations answered unsat (one per transition of the extracted automaton for the inductive step, plus implication / progress / witness queries)',
                        'obligations': report['obligations'], 'discharged': report['discharged'], 'solver_s': round(report['solver_s'], 2),
